@@ -138,3 +138,17 @@ impl Store {
         ixs
     }
 }
+//@include ../common/cmp_specs.rs
+// @item rust/core/src/search/mod.rs :: impl Store::{top_ixs} (lifted)
+pub fn cmp_records(r1: &&Record, r2: &&Record) -> (ret: Ordering)
+    // C12: the comparator of the empty-query ranking is (rating descending, normalised title ascending)
+    ensures ret == rec_order(*r1, *r2), // [C12 C07]
+{
+    {
+        r2.rating.cmp(&r1.rating).then_with(|| -> (ret: Ordering)
+            ensures ret == lex_cmp(r1.title.chars@, r2.title.chars@),
+        {
+            r1.title.chars.cmp(&r2.title.chars)
+        })
+    }
+}
